@@ -824,8 +824,13 @@ func (env *SpecEnv) call(x SCall) Val {
 			as = append(as, v.S)
 		}
 		// heap-dependent spec functions take the current heaps as extra arguments
-		for _, hk := range f.Heaps {
-			as = append(as, env.vc.getHeap(env.st, hk, env.eng.heapSortOf(hk)))
+		env.eng.resolveReads(f)
+		for i, hk := range f.Heaps {
+			h := env.vc.getHeap(env.st, hk, f.HeapSorts[i])
+			as = append(as, h)
+			if wt := env.eng.wtPred(hk, f.HeapSorts[i]); wt != "" && !strings.HasPrefix(h, "axh") {
+				env.vc.assumeOnce(app(wt, h))
+			}
 		}
 		t, srt := env.eng.specType(f.Result, env.pkg)
 		return Val{S: app("spec_"+x.Fun, as...), Sort: srt, T: t}
